@@ -171,7 +171,12 @@ def generate(run_seed: int, tier: str, *, faults: bool) -> dict:
             ops.append({"op": "leaf", "h": h["id"], "new": new["id"], "which": rng.randrange(8)})
         elif kind == "refit":
             ops.append({"op": "refit", "h": rng.choice([x for x in handles if x["kind"] in ("root", "restart")])["id"]})
-    return {"universe": u, "formula": f, "train": train, "dom": dom, "container": container,
+    used = world.variables_of(f)
+    train_keep = used if rng.random() < 0.3 else None  # the training frame carries only the variables the formula uses
+    for o in ops:
+        if o["op"] == "follow" and rng.random() < 0.3:
+            o["only_used_cols"] = True
+    return {"universe": u, "formula": f, "train": train, "dom": dom, "container": container, "train_keep": train_keep, "used_vars": used,
             "train_index": core.weighted(rng, [("rid", 3), ("range", 2), ("str", 1)]), "opts": opts,
             "np_seed": rng.getrandbits(31), "ops": ops, "faults_enabled": faults}
 
@@ -378,8 +383,8 @@ def execute(scenario: dict, env: Any, *, prop: str) -> dict:
     def seed_np(step: int) -> None:
         np.random.seed(core.h64("np", sc["np_seed"], step) % (2**32))
 
-    def frame(ids: list[int], index: str, fault: Optional[dict] = None, recat: Optional[int] = None) -> Any:
-        return world.take(u, ids, container=sc["container"], index=index, mutate=fault, recat=recat)
+    def frame(ids: list[int], index: str, fault: Optional[dict] = None, recat: Optional[int] = None, keep: Optional[list] = None) -> Any:
+        return world.take(u, ids, container=sc["container"], index=index, mutate=fault, recat=recat, keep_cols=keep)
 
     def call(spec_or_mm: Any, entry: str, data: Any, mm_for_sugar: Any = None) -> Any:
         if entry == "spec.gmm":
@@ -393,7 +398,7 @@ def execute(scenario: dict, env: Any, *, prop: str) -> dict:
     try:
         # ------------------------------------------------------------------ fit
         seed_np(-1)
-        tframe = frame(sc["train"], sc["train_index"])
+        tframe = frame(sc["train"], sc["train_index"], keep=sc.get("train_keep"))
         try:
             with warnings.catch_warnings():
                 warnings.simplefilter("ignore")
@@ -481,7 +486,7 @@ def execute(scenario: dict, env: Any, *, prop: str) -> dict:
                 if not ids:
                     continue
                 if fault is None:
-                    data = frame(ids, op["index"], recat=op.get("recat"))
+                    data = frame(ids, op["index"], recat=op.get("recat"), keep=sc.get("used_vars") if op.get("only_used_cols") else None)
                     with warnings.catch_warnings():
                         warnings.simplefilter("ignore")
                         try:
